@@ -701,7 +701,15 @@ class Extractor:
         o, c = find_fn(toks, "drop", impl_of="ActiveQueue")
         body = [t[1] for t in toks[o:c + 1]]
         marks = any(body[k:k + 6] == ["core", ".", "state", "=", "QueueState", "::"] and body[k + 6] == "Panicked" for k in range(len(body) - 6))
-        conds = [k for k in range(len(body)) if body[k] in ("if", "match", "while")]
+        def lock_iflet(k):
+            # `if let Ok(guard) = <...>.lock() {`: taking the lock is not a condition on the queue state
+            if body[k] != "if" or body[k + 1:k + 3] not in (["let", "Ok"], ["let", "Some"]):
+                return False
+            j = k
+            while j < len(body) and body[j] != "{":
+                j += 1
+            return "lock" in body[k:j] and "state" not in body[k:j]
+        conds = [k for k in range(len(body)) if body[k] in ("if", "match", "while") and not lock_iflet(k)]
         uncond = marks and len(conds) == 1 and body[conds[0] + 1:conds[0] + 4] == ["thread", "::", "panicking"] and not any(t in ("==", "!=", "is_running", "&&", "||") for t in body)
         self.out.append("/-- active_queue.rs `Drop for ActiveQueue`: while panicking the queue is marked Panicked whatever its state (the only condition is `thread::panicking()`) -/")
         self.out.append("def guardMarksPanickedAlways : Bool := %s\n" % ("true" if uncond else "false"))
@@ -743,18 +751,59 @@ class Extractor:
         uses = [n for n in ("sync", "sync_no_panic", "desync", "try_sync") if n in dn]
         if "from_raw" not in dn:
             raise Unsupported("Desync::drop no longer frees the boxed value")
-        # every `Box::from_raw` of the drop must sit inside the closure handed to one of those scheduling calls
-        stack, outside, total = [], 0, 0
+        # every `Box::from_raw` of the drop must sit inside a closure that is handed to one of those scheduling calls:
+        # written in the call's argument list, or bound to a local that is used only as an argument of such calls
+        SCHED = ("sync", "sync_no_panic")
+        parens, braces, outside, total = [], [], 0, 0      # braces: (is_closure_body, in_sched_call, let_name)
+        let_closures = {}
         for k in range(o, c):
-            if names[k] == "(":
-                stack.append(names[k - 1])
-            elif names[k] == ")":
-                if stack:
-                    stack.pop()
-            elif names[k] == "from_raw":
+            t = names[k]
+            if t == "(":
+                parens.append(names[k - 1])
+            elif t == ")":
+                if parens:
+                    parens.pop()
+            elif t == "{":
+                is_closure = names[k - 1] in ("||", "|")
+                let_name = None
+                if is_closure:
+                    j = k - 1
+                    while j > o and names[j] in ("||", "|", "move"):
+                        j -= 1
+                    if names[j] == "=" and names[j - 2] == "let":
+                        let_name = names[j - 1]
+                braces.append((is_closure, any(x in SCHED for x in parens), let_name))
+            elif t == "}":
+                if braces:
+                    braces.pop()
+            elif t == "from_raw":
                 total += 1
-                if not any(x in ("sync", "sync_no_panic") for x in stack):
+                cl = [b for b in braces if b[0]]
+                if not cl:
                     outside += 1
+                elif cl[-1][1]:
+                    pass
+                elif cl[-1][2] is not None:
+                    let_closures.setdefault(cl[-1][2], 0)
+                    let_closures[cl[-1][2]] += 1
+                else:
+                    outside += 1
+        for nm, cnt in let_closures.items():
+            # every use of the local (other than its definition) must be an argument of sync / sync_no_panic
+            ps, ok, n_uses = [], True, 0
+            for k in range(o, c):
+                t = names[k]
+                if t == "(":
+                    ps.append(names[k - 1])
+                elif t == ")":
+                    if ps:
+                        ps.pop()
+                elif t == nm and names[k - 1] != "let":
+                    n_uses += 1
+                    if not any(x in SCHED for x in ps):
+                        ok = False
+            if not ok or n_uses == 0:
+                outside += cnt
         self.out.append("/-- `Desync::drop`: how many times the boxed value is released (`Box::from_raw`) outside the closure of a scheduled job -/")
         self.out.append("def dropFreesOutsideJob : Nat := %d\n" % outside)
         self.digest["facts"]["dropFreesOutsideJob"] = outside
